@@ -24,10 +24,10 @@ VARIABLES tid, l
 tvars == <<tid, l>>
 T == Traces[tid]
 
-Kinds == [pt |-> 3, limit |-> 3, gen |-> 2, honey |-> 2]
+Kinds == [pt |-> 4, limit |-> 3, gen |-> 2, honey |-> 2]
 NClauses == Kinds[T.kind]
 ClauseName(k) ==
-  CASE T.kind = "pt"    -> <<"C04_count_is_lines", "C04_product", "C04_same_probability">>[k]
+  CASE T.kind = "pt"    -> <<"C04_count_is_lines", "C04_product", "C04_same_probability", "C04_reported_probability_is_the_product">>[k]
     [] T.kind = "limit" -> <<"C09_length", "C09_prefix", "C09_stdout_is_guess_stream">>[k]
     [] T.kind = "honey" -> <<"C16_word_is_the_chosen_derivation", "C16_word_in_the_language">>[k]
     [] OTHER            -> <<"gen_lines", "gen_count">>[k]
@@ -37,6 +37,9 @@ ClauseHolds(k) ==
     [] T.kind = "pt" /\ k = 2 -> BagOfSeq(T.lines) = Expected(T.groups)
     [] T.kind = "pt" /\ k = 3 -> \A g \in 1..Len(T.groups) : \A j \in 1..Len(T.groups[g].fr) :
                                       T.groups[g].fr[j] = T.groups[g].gr
+    (* T.rp = rank of the probability the guesser computes for the pre-terminal (_find_prob, what the queue attaches),   *)
+    (* T.pp = rank of base-structure probability x probability of every chosen group as loaded (0 / 0: not recorded)    *)
+    [] T.kind = "pt" /\ k = 4 -> T.rp = T.pp
     [] T.kind = "limit" /\ k = 1 -> Len(T.lines) = Min2(T.N, Len(T.full))
     [] T.kind = "limit" /\ k = 2 -> T.lines = SubSeq(T.full, 1, Min2(T.N, Len(T.full)))
     [] T.kind = "limit" /\ k = 3 -> T.hasout => T.stdout = T.lines
